@@ -411,13 +411,17 @@ where
     const LINE_FEED: char = '\n';
     const CARRIAGE_RETURN: char = '\r';
 
+    // `buf` may already hold data (the fixed fields of a record): a carriage return is part of
+    // the line terminator only if this call appended it.
+    let start = buf.len();
+
     match reader.read_line(buf) {
         Ok(0) => Ok(0),
         Ok(n) => {
             if buf.ends_with(LINE_FEED) {
                 buf.pop();
 
-                if buf.ends_with(CARRIAGE_RETURN) {
+                if buf.len() > start && buf.ends_with(CARRIAGE_RETURN) {
                     buf.pop();
                 }
             }
